@@ -98,3 +98,29 @@ add("C20", "E3+E2",
     "Bodies of 2-3 threads that evaluate a shared Arc<FlatEx>/Arc<DeepEx> (borrowing and consuming), parse the same and different texts with two operator factories that share operator names (flat, deep, default f64 and value tables with their lazily initialised global regexes), and convert/operate on a clone while others evaluate the original; every call-back into the harness data type, operator factory and literal matcher is a scheduling point; ALL schedules with at most b preemptions are executed and every thread's observations must equal the schedule-independent reference; the shared expression's structural dump must not change. All call sequences up to length 4/5 over 12 jobs in one process detect hidden state between calls. Each schedule of the <=1-preemption space of the default-table body is replayed in a fresh process (first-use initialisation). /verif/probe asserts Send + Sync.",
     "Code between two call-backs runs atomically; lazy_static's Once is trusted; memory-ordering effects and data races on plain memory inside one segment are outside a cooperative scheduler's view. A recorded schedule is replayed twice and must give identical observations; divergence while replaying a prefix is a hard error.",
     "DESIGN.md §3 C20")
+
+# extensions added while testing the checks against seeded defects (DESIGN.md §10)
+def extend(pid, technique_more, text_more):
+    e, tq, tx, note, ref = CHECKS[pid]
+    CHECKS[pid] = (e, tq + "; " + technique_more, tx + " " + text_more, note, ref)
+
+DERIVED = "Explicit-state exploration of derived-expression histories (harness/src/derived.rs: partial, partial_nth, convert, operate_unary/binary, subs, subs-into-a-carrier on flat and deep expressions over error-bounded floats, from parsed and from already differentiated roots) in lock-step with a reference tree + declared variable list + reference differentiator; this check judges the steps its property speaks about."
+extend("C02", "macro-token string differential", "The string differential also runs over 'macro tokens' (whole parenthesised groups as one symbol) so that short sequences reach sloppy texts such as a prefix operator followed by groups.")
+extend("C03", "macro-token string differential; explicit-state exploration of derived-expression histories with the conversion steps judged", "Flat vs deep on all sequences of macro tokens (whole groups as one symbol). " + DERIVED)
+extend("C04", "explicit-state exploration of derived-expression histories (variable lists of every step judged)", DERIVED + " eval_vec / eval_iter binding and arity are checked as well.")
+extend("C05", "exact rational powers and evaluation points outside the positive quadrant", "Points with negative coordinates are included; the exact (rational) comparison covers rational exponents on perfect powers, which decides sign errors that the error-bounded floats cannot.")
+extend("C06", "value-type boundary operands for 32- and 64-bit integers under a per-case watchdog; derived-expression histories with only panics judged", "A family of boundary literals / variables for every unary and the integer binary operators of the value type (i32 and i64) runs in small chunks with an 8 s per-case watchdog (hangs are reported); non-ASCII numerics are in the token alphabet. " + DERIVED)
+extend("C07", "array literals with validated contents", "The value-type language includes array literals; the reference lexer accepts an array literal only if every element is a number or boolean.")
+extend("C08", "call form of symbolic and sign-like operators; variable names containing parentheses", "Campaigns all-ops-* put every binary operator (symbolic and sign-like ones too) into call form; a campaign uses braced variable names that contain parentheses and commas.")
+extend("C09", "out-of-range index catalogue around 64 / 128 / 2^32 / usize::MAX with aliases of valid indices; derived-expression histories with the differentiation steps judged", DERIVED)
+extend("C10", "second operator factory (same operators, reverse table order) replayed on the same thread; derived-expression histories with the application steps judged", "Every history of the by-name model is also replayed with a second factory on the same thread. " + DERIVED)
+extend("C11", "second pair of commutative operators per priority; derived-expression histories with the substitution steps judged", "A model over two pairs of commutative operators of equal priority (+ |, * &). " + DERIVED)
+extend("C12", "serde through from_str, from_reader and from_value; variable names that need JSON escapes; constants listed before operators in the table", "The serde round trip uses three deserialisation routes; the symbolic table lists constants before and between operators.")
+extend("C13", "tables with names containing underscores and with more than 64 operators", "Families l (names with underscores) and m (69 operators, unary operator and constant behind index 63).")
+extend("C14", "operand modes (few repeated variables, literals)", "Structured orders run with four operand modes: distinct variables, three variables in rotation, literals alternating with a variable, one variable.")
+extend("C15", "many-variable texts (16..200 variables), shuffled repeated occurrences, evaluate-compile-evaluate history, iterators without exact size hint", "Also texts with up to 200 variables and repeats at distinguished positions, two-pass / reversed / strided occurrence orders, the history parse_wo_compile - eval_vec - compile - eval_vec, and eval_iter from filtering and from_fn iterators (right and wrong lengths).")
+extend("C16", "integer-width sweep (i8, i16, i64, i128) against exact BigInt arithmetic", "Integer operators (- abs fact + - * / % ^ << >> to_int) over boundary operands of four further integer widths are compared with exact integer arithmetic (fits -> exact value, else error value).")
+extend("C17", "integer-width sweep (i8, i16, i64, i128): totality and missing errors", "The width sweep of C16 is judged for panics and missing error values here.")
+extend("C18", "deep / converted forms, arithmetic chains inside conditions, all six comparisons, relaxed differentiation modes at integer points", "All families run through flat, deep and converted forms; conditions contain arithmetic chains; all six comparisons with every pair of leaves; conditions with an operator without derivative rule through partial_relaxed (PerOperand / None).")
+extend("C19", "4 neighbouring representable values on either side of every catalogue entry", "The special-value catalogue is closed under +-1..4 ulp neighbours (domain edges, ties, exponent 0.5 +- ulp).")
+extend("C20", "uncompiled shared expressions with compiled clones, two integer widths of the value type, six pattern-based literal matchers, two operator tables with prefix-related names, fresh-process replays", "Jobs also cover: eval_vec on an uncompiled shared expression followed by compile() of a clone; the value type over i32 and i64 in one process; six literal_matcher_from_pattern! matchers used in rotation on one thread; two tables over one data type with `*` and `**` in different slots.")
